@@ -11,7 +11,7 @@ THEOREM_NAMES = ['run_fuel_mono', 'input_rt', 'output_fluor_rt', 'input_fluor_re
                  'document_rt', 'document_leading_rt', 'document_open_rt', 'stmtText_reporter', 'stmtText_input', 'stmtText_input_ident',
                  'stmtText_input_wire_f', 'stmtText_output_fluor', 'stmtText_output_wire', 'stmtText_seesaw', 'stmtText_inputfanout',
                  'stmtText_seesawOR', 'stmtText_seesawAND', 'stmtText_wireconc', 'stmtText_wireconc_decimal', 'stmtText_gateO_conc',
-                 'stmtText_gateI_conc', 'stmtText_thO_conc']
+                 'stmtText_gateI_conc', 'stmtText_thO_conc', 'ssw_document_layout_rt', 'ssw_document_layout_open_rt']
 THEOREMS = ['Dsd.C19.' + t for t in THEOREM_NAMES]
 ASSUMPTIONS = [
     'pyparsing 3.3.2 is modelled by a hand-written interpreter (Model/Pyparsing.lean); the seesaw grammar term (Gen/Grammars.lean: '
@@ -28,8 +28,9 @@ MANIFEST = {
             'seesaw_missing_list_rejected. DOCUMENTS: document_rt - for ANY non-empty list of statement texts satisfying StmtText (proved '
             'for every statement kind: the 15 stmtText_* instances), each followed by its line end and any number of blank lines, the '
             'document parses to the list of the statements\' trees (concatenation, in order); document_leading_rt (leading blank lines), '
-            'document_open_rt (no final newline). Arbitrary layouts (blanks at every position), scientific concentrations, thI and '
-            'files are NOT theorems: they are decided on the real parser by a reference renderer, '
+            'document_open_rt (no final newline), ssw_document_layout_rt (a comment after any statement, LF or CRLF line ends, any '
+            'number of blank / comment-only lines before, between and after the statements, unterminated last line). Blanks at the '
+            'remaining token boundaries, tabs, scientific concentrations, thI and files are NOT theorems: they are decided on the real parser by a reference renderer, '
             'and the model is compared with pyparsing on the same texts, the systematic negative family and random mutations.',
     'note': 'pyparsing semantics is modelled by hand and tied by differential testing only.',
     'technique': 'Lean 4 symbolic execution of a pyparsing interpreter over the grammar regenerated from source (induction on list length); correspondence check; reference renderer oracle',
@@ -227,6 +228,11 @@ def run(res, proof):
         if r[0] != 'ok' or r[1] != exp:
             res.violation('roundtrip:' + lab, {'text': txt}, canon(r), 'ok ' + PG.show(exp))
     from dsdobjects.dsdparser import parse_seesaw_string, parse_seesaw_file
+    from . import cu
+    # a parse result belongs to the caller: taking it apart in place must not change what the same text parses to next time
+    for (lab, txt, exp) in [c for c in cases if c[2] is not None][:40 if quick else 400]:
+        cu.fresh_results(res, 'parse_seesaw_string', lambda: parse_seesaw_string(txt), {'text': txt})
+        res.count('result_ownership_checked')
     tmpdir = tempfile.mkdtemp(prefix='verif_c19_')
     try:
         for k, (lab, txt, exp) in enumerate([c for c in cases if c[0] == 'document'][:40 if quick else 300]):
